@@ -178,6 +178,7 @@ def run(ctx):
     import gen_tables
     broken = []
     problems = []
+    common.regen(ctx)
     try:
         r = gen_tables.generate()
         problems = r["problems"]
